@@ -59,26 +59,14 @@ EXTRA_GRID = [(0.0, 0.1), (0.0, 0.7), (0.2, 0.8), (1.0, 2.0), (0.0, 3.0), (0.0, 
 
 
 def theorem_grid():
-    """The 266 intervals of make_knots_float_bounded_2000 (coq/C19/FloatGridDefs.v: grid_all), in the
+    """The 16 intervals of make_knots_float_bounded_2000 (coq/C19/FloatGridDefs.v: grid_all), in the
     same order, as pairs of Fractions; a generated obligation checks on every run that their nearest
     doubles are bit for bit the ones the theorem is about."""
     Fr = Fraction
-
-    def pairs_of(l):
-        return [(x, y) for i, x in enumerate(l) for y in l[i + 1:]]
-    g = pairs_of([Fr(k, 10) for k in range(11)])
-    g += pairs_of([Fr(0), Fr(1, 4), Fr(1, 3), Fr(1, 2), Fr(2, 3), Fr(3, 4), Fr(1)])
-    g += pairs_of([Fr(x) for x in (-2, -1, 0, 1, 2, 3, 5, 10)])
-    g += pairs_of([Fr(k, 7) for k in range(8)])
-    g += pairs_of([Fr(-1), Fr(-1, 2), Fr(0), Fr(1, 4), Fr(1, 2), Fr(3, 4), Fr(1), Fr(3, 2), Fr(2)])
-    g += pairs_of([1 + Fr(k, 10) for k in range(11)])
-    g += [(Fr(0), Fr(10) ** k) for k in range(-6, 7)] + [(Fr(10) ** k, Fr(10) ** (k + 1)) for k in range(-6, 6)]
-    g += [(Fr(-1, 2), Fr(1, 4)), (Fr(1, 1000), Fr(1000)), (Fr(100), Fr(1001, 10)), (Fr(-37, 10), Fr(129, 10)),
-          (Fr(1234567, 10), Fr(6543219, 10)), (Fr(-1000000), Fr(1000000)),
-          (Fr(0), Fr(7)), (Fr(-5, 2), Fr(5, 2)), (Fr(10), Fr(11)), (Fr(-1, 10), Fr(1, 10)), (Fr(11, 2), Fr(28, 5)),
-          (Fr(0), Fr(6283185307179586, 10 ** 15)), (Fr(1000), Fr(1001)), (Fr(-1, 10 ** 6), Fr(1, 10 ** 6)),
-          (Fr(7, 10), Fr(19, 10)), (Fr(-73, 10), Fr(-11, 10)), (Fr(1, 20), Fr(19, 20)), (Fr(0), Fr(3))]
-    return g
+    return [(Fr(0), Fr(1)), (Fr(-1), Fr(1)), (Fr(9, 10), Fr(1)), (Fr(1, 10), Fr(7, 10)), (Fr(1, 3), Fr(2, 3)),
+            (Fr(0), Fr(3, 10)), (Fr(2), Fr(3)), (Fr(-1, 2), Fr(1, 4)), (Fr(0), Fr(10)), (Fr(1, 1000), Fr(1000)),
+            (Fr(100), Fr(1001, 10)), (Fr(-37, 10), Fr(129, 10)), (Fr(1, 10 ** 6), Fr(1, 10 ** 5)),
+            (Fr(1234567, 10), Fr(6543219, 10)), (Fr(0), Fr(1, 10 ** 6)), (Fr(-10 ** 6), Fr(10 ** 6))]
 
 
 def q2f(x):
@@ -484,7 +472,7 @@ def run(ctx):
         '(reflexivity) to the model; tie C: make_knots bit-exact against the PrimFloat model, all integer/array-copy '
         'queries exactly against the Qc model, float results within the bounds stated at the top of harness/props/c19.py',
         'not covered: numpy internals beyond the bit-exact comparison; scipy splev (only compared with itself); '
-        'the binary64 theorem is bounded (the 266 intervals listed in its statement, n <= 2000)',
+        'the binary64 theorem is bounded (the 16 intervals listed in its statement, n <= 2000)',
     ]
     translator_stage(ctx)
 
@@ -492,9 +480,9 @@ def run(ctx):
     mk = gen_mk(ctx)
     kvs, badkvs = gen_kvs(ctx)
     if thorough:
-        grid = GRID + EXTRA_GRID + ctx.rng.sample(THEOREM_GRID, 40)
+        grid = THEOREM_GRID + EXTRA_GRID
     else:
-        grid = [GRID[0]] + ctx.rng.sample(THEOREM_GRID, 2) + [ctx.rng.choice(EXTRA_GRID)]
+        grid = [THEOREM_GRID[0]] + ctx.rng.sample(THEOREM_GRID[1:], 2) + [ctx.rng.choice(EXTRA_GRID)]
     for _ in range(8 if thorough else 1):
         a = round(ctx.rng.uniform(-5, 5), 2)
         grid.append((float(a), float(a + round(ctx.rng.uniform(0.05, 9), 2))))
@@ -735,12 +723,12 @@ def run(ctx):
 META = {
     'technique': 'Rocq proofs over exact rationals for the constructor and every KnotVector query (closed form of every knot, '
                  'mesh = break points, findspan from C02, index-map consistency, sorted union) + a bounded PrimFloat theorem '
-                 '(computed for 266 rational/decimal intervals x n<=2000, lifted by proof over every p and mult) + translator tie + bit-exact/'
+                 '(computed for 16 rational/decimal intervals x n<=2000, lifted by proof over every p and mult) + translator tie + bit-exact/'
                  'exact correspondence with the implementation',
     'level_text': 'Theorems (Coq): for every p, a<b, n>=1, mult>=1 the (repaired, np.linspace) constructor model has p+1+mult(n-1) '
                   'dofs, knot i is break point bpidx(i) (first/last p+1 times, interior mult times), is open/non-decreasing '
                   '(kv_ok), has exactly n spans with break points a+i(b-a)/n ending at b, and findspan returns the unique non-empty '
-                  'span (C02). In binary64: for the 266 rational/decimal intervals listed in the theorem, n<=2000 and every p, mult the float model is non-decreasing with n '
+                  'span (C02). In binary64: for the 16 rational/decimal intervals listed in the theorem, n<=2000 and every p, mult the float model is non-decreasing with n '
                   'strictly increasing spans ending exactly at b (make_knots_float_bounded_2000); the np.arange formula of the '
                   'unrepaired source is refuted (n=49). For every knot vector: mesh strictly increasing, mesh[k2m[i]] = kv[i], '
                   'support = mesh[mesh_support_idx], mesh_support_idx_all row-wise, mesh_span_indices = non-empty spans with '
